@@ -11,6 +11,9 @@ where
     POut:           BezierPathFactory,
     POut::Point:    Coordinate+Coordinate2D,
 {
+    #[cfg(flo_curves_verif)]
+    super::ray_cast::verif_trace::push(super::ray_cast::verif_trace::Event::Op("add_chain", paths.iter().map(|path| super::ray_cast::verif_trace::fingerprint(path)).collect()));
+
     // Build up the graph path from the supplied list
     let mut merged_path = GraphPath::new();
 
